@@ -197,7 +197,37 @@ type podGen struct {
 	Template           string // inject.istio.io/templates annotation ("" = default)
 	Native             bool   // native sidecar mode
 	HoldApp            bool
+	Annos              map[string]string // extra per-pod annotations that steer the template / post-processing
 	Seed               uint64
+}
+
+// annotations that steer injection; values are drawn per pod
+var annoChoices = []struct {
+	k  string
+	vs []string
+}{
+	{"status.sidecar.istio.io/port", []string{"15020", "15021", "16000", "0"}},
+	{"sidecar.istio.io/rewriteAppHTTPProbers", []string{"true", "false"}},
+	{"sidecar.istio.io/interceptionMode", []string{"REDIRECT", "TPROXY", "NONE"}},
+	{"traffic.sidecar.istio.io/includeOutboundIPRanges", []string{"*", "10.0.0.0/8", ""}},
+	{"traffic.sidecar.istio.io/excludeInboundPorts", []string{"22", "22,8001"}},
+	{"traffic.sidecar.istio.io/excludeOutboundPorts", []string{"3306"}},
+	{"sidecar.istio.io/proxyCPU", []string{"100m", "1"}},
+	{"sidecar.istio.io/proxyMemoryLimit", []string{"256Mi"}},
+	{"sidecar.istio.io/proxyImage", []string{"example.com/proxy:custom"}},
+	{"sidecar.istio.io/logLevel", []string{"debug"}},
+	{"sidecar.istio.io/bootstrapOverride", []string{"my-bootstrap"}},
+	{"sidecar.istio.io/userVolume", []string{`[{"name":"uv","emptyDir":{}}]`}},
+	{"sidecar.istio.io/userVolumeMount", []string{`[{"name":"uv","mountPath":"/uv"}]`}},
+	{"prometheus.io/scrape", []string{"true", "false"}},
+	{"prometheus.io/port", []string{"9090", "8000"}},
+	{"prometheus.io/path", []string{"/metrics", "/m"}},
+	{"prometheus.istio.io/merge-metrics", []string{"true", "false"}},
+	{"readiness.status.sidecar.istio.io/periodSeconds", []string{"5"}},
+	{"proxy.istio.io/config", []string{`{"concurrency": 3}`, `{"holdApplicationUntilProxyStarts": true}`, `{"proxyMetadata":{"A":"b"}}`, `{"statusPort": 15099}`}},
+	{"istio.io/dataplane-mode", []string{"none"}},
+	{"sidecar.istio.io/agentLogLevel", []string{"debug"}},
+	{"inject.istio.io/templates", []string{"sidecar,spire", "sidecar"}},
 }
 
 func buildPod(g podGen) *corev1.Pod {
@@ -209,6 +239,11 @@ func buildPod(g podGen) *corev1.Pod {
 	}
 	if g.HoldApp {
 		pod.Annotations["proxy.istio.io/config"] = `{"holdApplicationUntilProxyStarts": true}`
+	}
+	for k, v := range g.Annos {
+		if _, set := pod.Annotations[k]; !set {
+			pod.Annotations[k] = v
+		}
 	}
 	for i := 0; i < g.NUser; i++ {
 		ct := corev1.Container{Name: fmt.Sprintf("app%d", i), Image: fmt.Sprintf("img%d:%d", i, r.Intn(9)),
@@ -341,12 +376,17 @@ func pairs(xs [][2]uint64) string {
 func genIdem(t *testing.T, c *vlib.Collector, id *int) {
 	var st *settings
 	r := vlib.NewRand(vlib.Seed() ^ 0xc19)
-	n := vlib.Scale(60, 600)
+	n := vlib.Scale(200, 3000)
 	tmpls := []string{"", "sidecar", "gateway", "grpc-agent", "grpc-simple"}
 	for k := 0; k < n; k++ {
 		*id++
 		g := podGen{NUser: 1 + r.Intn(3), NInit: r.Intn(3), NVol: r.Intn(3), NativeInit: r.Chance(30), ExistingProxy: r.Chance(30),
 			Probes: r.Chance(50), Template: vlib.Pick(r, tmpls), Native: r.Chance(40), HoldApp: r.Chance(30), Seed: r.SubSeed()}
+		g.Annos = map[string]string{}
+		for na := r.Intn(5); na > 0; na-- {
+			a := annoChoices[r.Intn(len(annoChoices))]
+			g.Annos[a.k] = a.vs[r.Intn(len(a.vs))]
+		}
 		if !c.Wanted(*id) {
 			continue
 		}
@@ -405,6 +445,9 @@ func genIdem(t *testing.T, c *vlib.Collector, id *int) {
 		f2 := fullProjection(p2)
 		term := vlib.App("Idem", vlib.NI(*id), pairs(ub), pairs(ua), pairs(f1), pairs(f2))
 		tags := []string{"idem", "tmpl=" + g.Template}
+		for k := range g.Annos {
+			tags = append(tags, "idem:anno="+k)
+		}
 		if g.ExistingProxy {
 			tags = append(tags, "idem:existing-proxy")
 		}
